@@ -669,6 +669,28 @@ pub fn exec_plant(seed: u64) -> Vec<Case> {
             _ => APat::Node(14, vec![CField::App, CField::App], vec![lhs.clone(), pv[0].clone()]),
         };
         let rhs_inst = inst_term(&rhs, &vars, &back);
+        // a sixth of the remaining plants: a proper non-variable subpattern `q` of the left side becomes the left side of a
+        // second rule `q => 0` that runs *before* the planted rule in the same round. Beforehand no class has a redundant
+        // slot (scope of C04) and both rules are searched on that e-graph; the first rule's unions then make every slot of
+        // the `q` instance redundant, which is exactly the situation the matcher cannot handle any more — so the planted
+        // match has to come from the search that happened before anything was applied
+        let mut shrinker: Option<APat> = None;
+        if companion.is_none() && rng.chance(1, 5) {
+            fn subpats(p: &APat, depth: usize, out: &mut Vec<APat>) {
+                if let APat::Node(_, _, cs) = p {
+                    if depth > 0 {
+                        out.push(p.clone());
+                    }
+                    cs.iter().for_each(|c| subpats(c, depth + 1, out));
+                }
+            }
+            let mut qs = Vec::new();
+            subpats(&lhs, 0, &mut qs);
+            let qs: Vec<APat> = qs.into_iter().filter(|q| !free_slots(&inst_term(q, &vars, &back)).is_empty()).collect();
+            if !qs.is_empty() {
+                shrinker = Some(qs[rng.below(qs.len())].clone());
+            }
+        }
         if free_slots(&rhs_inst).iter().any(|s| !free_slots(&t0).contains(s)) || free_slots(&rhs_inst).len() != free_slots(&t0).len() {
             // a rhs with fewer free slots would make slots redundant: outside the scope of C04
             return None;
@@ -734,6 +756,9 @@ pub fn exec_plant(seed: u64) -> Vec<Case> {
         let rules: Vec<Rewrite<Main>> = if companion.is_some() {
             tags.push("t:companion-rule-first".into());
             vec![Rewrite::new("add-zero", "(add ?z 0)", "?z"), rule]
+        } else if let Some(q) = &shrinker {
+            tags.push("t:shrinking-rule-first".into());
+            vec![Rewrite::new("shrink", &apat_to_text(q), "0"), rule]
         } else {
             vec![rule]
         };
